@@ -67,6 +67,9 @@ class TaskType:
 
         while len(stack) > 0:
             curr_identifier = stack.pop()
+            if curr_identifier in visited:
+                # Reached through more than one path; visit each task only once.
+                continue
             visited.add(curr_identifier)
             task = ctx.task_index.get_task(curr_identifier)
             visitor(task)
